@@ -12,6 +12,48 @@ class Unmappable(Exception):
     pass
 
 
+LITERALS = []
+
+
+def resolve_literals(S, a, b, items):
+    """expected types containing @LITn@ placeholders: match them against the emitted type, then compare the invented
+    struct's fields with the literal's properties (same rows as for a named structure)"""
+    import re
+
+    by = {it.name: it for it in items if it.kind == "struct"}
+    for k in [k for k, v in a.items() if isinstance(v, str) and "@LIT" in v]:
+        got = b.get(k)
+        if not isinstance(got, str):
+            continue
+        ids = [int(x) for x in re.findall(r"@LIT(\d+)@", a[k])]
+        rx = re.escape(a[k])
+        for i in ids:
+            rx = rx.replace(re.escape("@LIT%d@" % i), r"([A-Za-z_][A-Za-z0-9_]*)")
+        m = re.fullmatch(rx, got)
+        if not m:
+            a[k] = a[k].replace("@", "")  # stays a mismatch
+            continue
+        a[k] = got
+        for i, sname in zip(ids, m.groups()):
+            lit = LITERALS[i]
+            it = by.get(sname)
+            a[("struct", sname, "", "exists")] = True
+            if it is None:
+                continue
+            b[("struct", sname, "", "exists")] = True
+            for p in lit["value"]["properties"]:
+                w = p["name"]
+                a[("struct", sname, w, "field")] = True
+                try:
+                    a[("struct", sname, w, "type")] = rust_type(S, p["type"], bool(p.get("optional")))
+                except Unmappable:
+                    pass
+            for f in it.fields:
+                w = rustparse.field_wire_name(it, f)
+                b[("struct", sname, w, "field")] = True
+                b[("struct", sname, w, "type")] = rustparse.norm_type(f[1])
+
+
 def is_null(t):
     return t["kind"] == "base" and t["name"] == "null"
 
@@ -52,7 +94,9 @@ def rust_type(S, t, optional=False):
         if not t["value"]["properties"]:
             name = "LSPObject"
         else:
-            raise Unmappable("anonymous literal with properties")
+            # the plugin invents a struct name; compared as a pattern, the struct's fields are compared separately
+            LITERALS.append(t)
+            name = "@LIT%d@" % (len(LITERALS) - 1)
     else:
         raise Unmappable(k)
     return "Option<%s>" % name if optional else name
